@@ -5,8 +5,8 @@ import "strconv"
 // values suite, second vocabulary (gap analysis of C06 against the property text):
 //   - "storing it inside another container" by INDEX ASSIGNMENT (c[0] = a, m.k = a), not only by literals,
 //     including a container stored inside itself (a[0] = a, a = a + [a], m[m] = 1: fatal stack overflow before
-//     repo fixes 5b056c2 / 9255529) and a container appended twice to one array
-//   - "element deletion" from inside a function on an outer map (failed before repo fix 9607a64) and on a parameter
+//     repo fixes 95497ec / 11369d7) and a container appended twice to one array
+//   - "element deletion" from inside a function on an outer map (failed before repo fix 908cebf) and on a parameter
 //   - "++ on an element": grol has no such form; the three spellings are a parse error or an evaluation error and
 //     must leave every binding alone
 //   - "containers passed through function calls and loops": loop variables bound to nested containers, first(),
